@@ -160,6 +160,9 @@ func judge(res *vlib.Result, w *world, cfg *config, nm []names) {
 			res.Count("names_subscriber_"+h.SubKind, 1)
 		}
 	}
+	if cfg.Life != nil {
+		countLifecycle(res, w, cfg)
+	}
 	for _, ms := range w.order {
 		n := nm[0]
 		if cfg.Mode == "router" && ms.plan.Handler >= 0 {
@@ -329,6 +332,10 @@ func judgeAttempt(res *vlib.Result, cfg *config, ms *msgState, a *attemptObs, n 
 	// error accepted by the filter: exactly one publish on the poison topic
 	res.Count("handler_err_accepted", 1)
 	if len(a.calls) == 0 {
+		if !a.gotSet {
+			res.Fail("not-published", "%s: no Publish call, and the poison middleware never returned for this invocation (it is not in the handler's chain)", where)
+			return
+		}
 		res.Fail("not-published", "%s: no Publish call; middleware returned %v", where, errText(a.gotErr))
 		return
 	}
@@ -524,12 +531,15 @@ func describe(res *vlib.Result, w *world, cfg *config) {
 		if cfg.Variant == "stateful" {
 			parts = append(parts, cfg.TaggedErrs, cfg.Concurrent)
 		}
+		if cfg.Life != nil {
+			parts = append(parts, lifeSig(cfg)...)
+		}
 	}
 	var sample []msgDesc
 	for i, ms := range w.order {
 		md := msgDesc{UUID: ms.plan.UUID, Metadata: ms.plan.Metadata, Handler: ms.plan.Handler, Ctx: ms.plan.Ctx}
 		if cfg.Variant != "" {
-			parts = append(parts, ms.plan.Handler, ctxPlanSig(ms.plan.Ctx))
+			parts = append(parts, ms.plan.Handler, ms.plan.At, ctxPlanSig(ms.plan.Ctx))
 		}
 		for j, a := range ms.attempts {
 			settled := ""
